@@ -1617,7 +1617,7 @@ def explore(ctx, scale, seed_stream='c15'):
 
 def run(ctx):
     build = leanbuild.ensure(PROPERTY, THEOREMS, thorough=ctx.thorough, extractors=['Registry'])
-    scale = 60 if ctx.thorough else 1
+    scale = 45 if ctx.thorough else 1
     I, R = explore(ctx, scale)
     if build.driver_ok:
         cases = R.fill()
